@@ -206,3 +206,21 @@ def jacobi_reach(game, sweeps=None, eps=None, vmax_sweeps=200000):
             return v, k
         if k >= vmax_sweeps:
             return v, k
+
+
+import contextlib
+
+
+@contextlib.contextmanager
+def budgeted(facts, extra_modules=()):
+    """Run arbitrary repository calls (several solves, batch runs) on `facts.game` under the
+    derived sweep budgets: reach loops get the bound for the input game's exact T, each reward
+    loop the bound for the exact T of the game it iterates.  Raises BudgetExceeded / SkipSolve."""
+    from .budget import sweep_budget
+    from .load import repo
+    helper = Solved.__new__(Solved)
+    helper.facts, helper.iterated_T, helper.iterated_not_stopping = facts, None, False
+    with sweep_budget(repo().tad, facts.budget, facts.n, extra_modules=extra_modules,
+                      on_reward_phase=helper._reward_phase_budget) as shim:
+        shim.helper = helper
+        yield shim
